@@ -13,8 +13,10 @@ package main
 import (
 	"fmt"
 	"math/rand"
+	"runtime"
 	"strconv"
 	"strings"
+	"sync"
 	"time"
 
 	imap "github.com/emersion/go-imap/v2"
@@ -49,6 +51,23 @@ type world struct {
 	sess    []*session
 	hist    []string
 	bad     bool
+	// conc: a mutator goroutine changes the mailbox while another one polls; mu then makes each
+	// mailbox operation (tracker call + expected-event bookkeeping) and each processing of a poll's
+	// output atomic, so that the order of expected events is the order the tracker saw
+	conc bool
+	mu   sync.Mutex
+}
+
+func (wd *world) lock() {
+	if wd.conc {
+		wd.mu.Lock()
+	}
+}
+
+func (wd *world) unlock() {
+	if wd.conc {
+		wd.mu.Unlock()
+	}
 }
 
 func pos(list []int, id int) uint32 {
@@ -172,6 +191,8 @@ func handler(ss *kit.Sess, c *kit.Call, w *kit.Writers) kit.Result {
 // ---- operations on the mailbox ---------------------------------------------
 
 func (wd *world) appendK(k int) {
+	wd.lock()
+	defer wd.unlock()
 	var ids []int
 	for i := 0; i < k; i++ {
 		wd.nextID++
@@ -188,6 +209,11 @@ func (wd *world) appendK(k int) {
 }
 
 func (wd *world) expunge(seq int) {
+	wd.lock()
+	defer wd.unlock()
+	if seq > len(wd.M) {
+		return
+	}
 	id := wd.M[seq-1]
 	wd.tracker.QueueExpunge(uint32(seq))
 	wd.M = append(wd.M[:seq-1:seq-1], wd.M[seq:]...)
@@ -200,6 +226,11 @@ func (wd *world) expunge(seq int) {
 }
 
 func (wd *world) flags(seq int, src *session, fl string) {
+	wd.lock()
+	defer wd.unlock()
+	if seq > len(wd.M) {
+		return
+	}
 	id := wd.M[seq-1]
 	var source *imapserver.SessionTracker
 	if src != nil {
@@ -219,6 +250,8 @@ func (wd *world) flags(seq int, src *session, fl string) {
 }
 
 func (wd *world) mboxFlags() {
+	wd.lock()
+	defer wd.unlock()
 	wd.tracker.QueueMailboxFlags([]imap.Flag{imap.FlagSeen, "kw"})
 	for _, s := range wd.sess {
 		if !s.closed {
@@ -234,12 +267,16 @@ func (wd *world) poll(s *session, allowExpunge bool) {
 	s.nTag++
 	tag := fmt.Sprintf("p%d", s.nTag)
 	if allowExpunge {
-		s.raw.SendStr(tag + []string{" NOOP\r\n", " noop\r\n", " NoOp\r\n"}[(len(wd.M)+len(s.view))%3])
+		s.raw.SendStr(tag + []string{" NOOP\r\n", " noop\r\n", " NoOp\r\n"}[s.nTag%3])
+		wd.lock()
 		wd.hist = append(wd.hist, "poll-all "+s.name)
+		wd.unlock()
 	} else {
 		// (command names are case-insensitive atoms)
-		s.raw.SendStr(tag + []string{" FETCH 1 FLAGS\r\n", " fetch 1 FLAGS\r\n", " Fetch 1 flags\r\n", " STORE 1 +FLAGS.SILENT (x)\r\n", " store 1 +flags.silent (x)\r\n", " SEARCH ALL\r\n", " sEARCH all\r\n"}[(len(wd.M)+2*len(s.view))%7])
+		s.raw.SendStr(tag + []string{" FETCH 1 FLAGS\r\n", " fetch 1 FLAGS\r\n", " Fetch 1 flags\r\n", " STORE 1 +FLAGS.SILENT (x)\r\n", " store 1 +flags.silent (x)\r\n", " SEARCH ALL\r\n", " sEARCH all\r\n"}[s.nTag%7])
+		wd.lock()
 		wd.hist = append(wd.hist, "poll-noexpunge "+s.name)
+		wd.unlock()
 	}
 	out, cond := s.raw.Sync()
 	if cond != "parked" {
@@ -252,6 +289,8 @@ func (wd *world) poll(s *session, allowExpunge bool) {
 		wd.fail("poll-failed", fmt.Sprintf("poll answered %q (log: %v)", out, wd.srv.Log.Lines()))
 		return
 	}
+	wd.lock()
+	defer wd.unlock()
 	for _, l := range lines {
 		if l.Tag != "*" || l.Status != "" {
 			continue
@@ -330,6 +369,10 @@ func (wd *world) poll(s *session, allowExpunge bool) {
 			}
 			s.pending = s.pending[1:]
 		}
+	}
+	if wd.conc {
+		// (what was queued after the server dequeued is legitimately still pending)
+		return
 	}
 	// what must have been delivered
 	if allowExpunge {
@@ -501,6 +544,67 @@ func runHistory(w *hx.W, srv *kit.Server, n0 int, nsess int, ops []int) {
 	}
 }
 
+// concurrentHistory: one goroutine keeps changing the mailbox while another keeps polling the
+// sessions. Every emitted update must still be the next one of that session's expected sequence
+// (nothing lost, duplicated or reordered), correctly numbered for its view; once the mutator has
+// stopped, a final poll must bring every view to the mailbox.
+func concurrentHistory(w *hx.W, srv *kit.Server, seed int64, n0, nsess, nops int) {
+	wd := newWorld(w, srv, n0)
+	defer wd.cleanup()
+	for i := 0; i < nsess; i++ {
+		wd.openSession()
+	}
+	wd.conc = true
+	stop := make(chan struct{})
+	var wg sync.WaitGroup
+	wg.Add(1)
+	go func() {
+		defer wg.Done()
+		r := rand.New(rand.NewSource(seed))
+		for i := 0; i < nops; i++ {
+			switch r.Intn(10) {
+			case 0, 1, 2:
+				wd.appendK(1 + r.Intn(3))
+			case 3, 4:
+				wd.expunge(1 + r.Intn(8))
+			case 5, 6, 7:
+				wd.flags(1+r.Intn(8), nil, "\\Seen")
+			case 8:
+				wd.flags(1+r.Intn(8), wd.sess[0], "\\Flagged")
+			default:
+				wd.mboxFlags()
+			}
+			if r.Intn(3) == 0 {
+				runtime.Gosched()
+			}
+		}
+		close(stop)
+	}()
+	pr := rand.New(rand.NewSource(seed + 1))
+polling:
+	for !wd.bad {
+		select {
+		case <-stop:
+			break polling
+		default:
+		}
+		wd.poll(wd.sess[pr.Intn(len(wd.sess))], pr.Intn(3) != 0)
+	}
+	wg.Wait()
+	wd.conc = false
+	for _, s := range wd.sess {
+		if !wd.bad {
+			wd.poll(s, true)
+			wd.probe()
+		}
+	}
+	w.Metric("concurrent_histories", 1)
+	w.Class("concurrent")
+	if p := srv.Log.Panics(); len(p) > 0 && !wd.bad {
+		wd.fail("server-panic", p[0])
+	}
+}
+
 func pendingShapeClass(wd *world) string {
 	return fmt.Sprintf("sessions%d/mailbox%d", len(wd.sess), len(wd.M))
 }
@@ -601,6 +705,16 @@ func body(w *hx.W) {
 		w.Class("long-queue")
 		w.Metric("long_queue_histories", 1)
 	}
+	// concurrent histories: mutation and polling overlap
+	nc := w.Pick(120, 3000)
+	for i := 0; i < nc; i++ {
+		seed := rng.Int63()
+		if !w.Mine(i) {
+			continue
+		}
+		concurrentHistory(w, srv, seed, rng.Intn(10), 1+rng.Intn(3), 150+rng.Intn(250))
+		w.Case(uint64(seed))
+	}
 	_ = rand.Int
 }
 
@@ -608,12 +722,12 @@ func main() {
 	hx.Main(hx.Spec{
 		ID:    "C07",
 		Level: "exploration",
-		Rule: "histories of QueueNumMessages(+k, k=1..4) / QueueExpunge / QueueMessageFlags (with and without source) / QueueMailboxFlags / session open / close / Poll(allowExpunge true|false): every history of length <= L over a 13-operation alphabet on a 3-message mailbox with 2 sessions (each distinct by construction), plus seeded random histories of length 4..33 with 1..4 sessions and 0..12 initial messages (distinct by hash), plus long-queue histories (120..319 operations while one session is never polled, then polled once); " +
+		Rule: "histories of QueueNumMessages(+k, k=1..4) / QueueExpunge / QueueMessageFlags (with and without source) / QueueMailboxFlags / session open / close / Poll(allowExpunge true|false): every history of length <= L over a 13-operation alphabet on a 3-message mailbox with 2 sessions (each distinct by construction), plus seeded random histories of length 4..33 with 1..4 sessions and 0..12 initial messages (distinct by hash), plus long-queue histories (120..319 operations while one session is never polled, then polled once), plus concurrent histories (150..399 tracker operations by one goroutine while another one polls 1..3 sessions); " +
 			"DecodeSeqNum/EncodeSeqNum probed for every number of every view after every step",
 		Assumptions: []string{
 			"every message has a unique id, passed as the UID of flag updates; client views are reconstructed only from the wire output of real server connections",
 			"DecodeSeqNum is probed only on numbers of the client's view (1..|V|), EncodeSeqNum on numbers of the mailbox (1..|M|)",
-			"polls are issued one at a time (sequential histories)",
+			"in the exhaustive, random and long-queue histories polls are issued one at a time; in the concurrent histories one goroutine mutates while another polls, each mailbox operation and each processing of a poll's output being atomic in the harness, and only order, numbering and final convergence are demanded there",
 		},
 		Shards:    func(string) int { return 12 },
 		WallQuick: 20 * time.Minute, WallThorough: 120 * time.Minute,
